@@ -766,6 +766,48 @@ def tie_chunk_info(ctx, given=None):
     ctx.extra['chunk_info_cases_vs_impl'] = len(mouts)
 
 
+def tie_view_store_get(ctx, given=None):
+    """DictChunkStore.get_chunk (a store that serves views): found / ChunkNotFound / BadChunk against dict_get_chunk."""
+    from katdal.chunkstore import BadChunk, ChunkNotFound
+    from katdal.chunkstore_dict import DictChunkStore
+    rng = ctx.rng
+    cases = [(c['shape'], c['slices']) for c in given] if given else []
+    for _ in range(0 if given else ctx.scale(400, 4000)):
+        shape = [rng.randint(1, 5) for _ in range(rng.randint(1, 3))]
+        sl = []
+        for n in shape:
+            r = rng.random()
+            if r < 0.6:
+                a, b = sorted((rng.randint(0, n), rng.randint(0, n)))
+            elif r < 0.8:
+                a = n + rng.randint(0, 2)
+                b = a + rng.randint(0, 2)
+            else:
+                a = rng.randint(0, n)
+                b = n + rng.randint(0, 2)
+            sl.append([a, b])
+        cases.append((shape, sl))
+    mouts = ctx.model([[601, [sh, sl]] for sh, sl in cases]) if ctx.model_ok else []
+    for (shape, sl), m in zip(cases, mouts):
+        arr = np.arange(int(np.prod(shape)), dtype=np.int32).reshape(shape)
+        store = DictChunkStore(x=arr)
+        slices = tuple(slice(a, b) for a, b in sl)
+        try:
+            ch = store.get_chunk('x', slices, arr.dtype)
+            impl = 0 if (np.array_equal(ch, arr[slices]) and (ch.size == 0 or np.shares_memory(ch, arr))) else 'copy'
+        except ChunkNotFound:
+            impl = 1
+        except BadChunk:
+            impl = 2
+        except Exception as e:     # noqa: BLE001
+            impl = 'raises:' + type(e).__name__
+        ctx.count('view_get=' + {0: 'found', 1: 'not_found', 2: 'malformed'}.get(m, str(m)))
+        if impl != m:
+            ctx.disagree('tie=view_store_get;impl=%s;model=%s' % (impl, m), dict(shape=shape, slices=sl, kind='view_get'), impl, m,
+                         'DictChunkStore.get_chunk differs from dict_get_chunk', kind='tie')
+    ctx.extra['view_store_get_cases_vs_impl'] = len(mouts)
+
+
 # ---- processing options between the chunk store and the user (van_vleck, weight power scaling, applycal)
 
 def gen_option_case(rng, path=None):
@@ -973,8 +1015,8 @@ def check_option_case(ctx, case, tag='c06opt'):
 
 def tie_options(ctx, given=None):
     rng = ctx.rng
-    cases = list(given) if given else [gen_option_case(rng) for _ in range(ctx.scale(26, 500))] + \
-        [gen_option_case(rng, path='v4') for _ in range(ctx.scale(4, 60))]
+    cases = list(given) if given else [gen_option_case(rng) for _ in range(ctx.scale(26, 300))] + \
+        [gen_option_case(rng, path='v4') for _ in range(ctx.scale(4, 40))]
     for case in cases:
         nt = check_option_case(ctx, case)
         ctx.note_case(('options', repr(sorted(case.items(), key=lambda kv: kv[0]))), nontrivial=bool(nt),
@@ -1051,6 +1093,36 @@ def gen_history(rng, small=True):
     return case
 
 
+def gen_view_history(rng):
+    """A history on a DictChunkStore: arrays are absent, hold only their first dumps (trailing dumps missing, by whole
+    chunks), arrive or grow later (possibly with new values); every load is followed by a second look."""
+    case = gen_history(rng, small=True)
+    case['store'] = 'dict'
+    case.pop('absent0', None)
+    T, F = max(case['nd'].values()), case['F']
+    bounds = {k: [0] + [int(x) for x in np.cumsum(case['chunks'][k][0])] for k in NAMES}
+
+    def rnd_held(k):
+        r = rng.random()
+        return bounds[k][-1] if r < 0.5 else 0 if r < 0.7 else rng.choice(bounds[k])
+    case['held0'] = {k: rnd_held(k) for k in NAMES}
+    loads = [s for s in case['steps'] if s[0] == 'load']
+    steps = []
+    ver = 0
+    for ld in loads:
+        steps.append(ld)
+        if rng.random() < 0.5:
+            steps.append(ld)                      # the same load again through the same store
+        for k in rng.sample(NAMES, rng.choice([1, 1, 2, 4])):
+            if rng.random() < 0.3 and ver < 2:
+                ver += 1
+            steps.append(['arr', k, bounds[k][-1] if rng.random() < 0.6 else rnd_held(k), rng.randint(0, ver)])
+        steps.append(['load', ld[1] if rng.random() < 0.5 else ([] if case['path'] == 'vfw' else {})])
+    case['steps'] = steps
+    case['versions'] = ver + 1
+    return case
+
+
 def history_numpy_spec(case, present, values, index_np):
     """Independent numpy statement of the spec at one point of a history.  present: {array: {chunk index tuple: version}}"""
     Tmax = max(case['nd'].values())
@@ -1079,20 +1151,27 @@ def run_history(ctx, case, tag='c06h'):
     feats = 'path=%s;history' % case['path']
     nontrivial = False
     try:
-        h = fx.History(case, tmp)
-        present = {k: {} for k in NAMES}
-        for op in h.ops:
-            present[NAMES[op[1]]][tuple(self_idx(case, NAMES[op[1]], op[2]))] = op[3]
+        view = case.get('store') == 'dict'
+        h = fx.ViewHistory(case) if view else fx.History(case, tmp)
+        if view:
+            feats = 'store=dict;' + feats
         nload = 0
         for si, st in enumerate(case['steps']):
             if st[0] == 'del':
                 h.delete(st[1], st[2])
-                present[st[1]].pop(tuple(st[2]), None)
                 continue
             if st[0] == 'put':
                 h.put(st[1], st[2], st[3])
-                present[st[1]][tuple(st[2])] = st[3]
                 continue
+            if st[0] == 'arr':
+                h.set_array(st[1], st[2], st[3])
+                continue
+            present = {k: {} for k in NAMES}
+            for op in h.ops:
+                if op[0] == 1:
+                    present[NAMES[op[1]]][tuple(self_idx(case, NAMES[op[1]], op[2]))] = op[3]
+                else:
+                    present[NAMES[op[1]]].pop(tuple(self_idx(case, NAMES[op[1]], op[2])), None)
             index = st[1]
             nload += 1
             where = 'load=%d' % nload
@@ -1119,6 +1198,9 @@ def run_history(ctx, case, tag='c06h'):
             # ---- katdal
             try:
                 out, held, _ = h.load(index)
+                if view and h.unchanged():
+                    ctx.disagree('%s;obs=flags;symptom=store_memory_modified' % feats, case, h.unchanged(), where,
+                                 'a load modified arrays owned by the chunk store')
             except Exception as e:     # noqa: BLE001
                 if rejected:
                     continue
@@ -1191,14 +1273,16 @@ def self_idx(case, name, ident):
 
 def canon_history(case):
     return ('history', case['F'], case['B'], sorted(case['nd'].items()), sorted((k, v) for k, v in case['chunks'].items()),
-            sorted((k, v) for k, v in case['absent0'].items()), repr(case['steps']), case['path'], case.get('l1'))
+            sorted((k, v) for k, v in case.get('absent0', case.get('held0', {})).items()), repr(case['steps']), case['path'],
+            case.get('l1'), case.get('store'))
 
 
 def run_histories(ctx, cases, tag='c06h'):
     for case in cases:
         nt = run_history(ctx, case, tag)
-        nput = sum(1 for s in case['steps'] if s[0] == 'put')
+        nput = sum(1 for s in case['steps'] if s[0] in ('put', 'arr'))
         ndel = sum(1 for s in case['steps'] if s[0] == 'del')
+        ctx.count('history_store=' + case.get('store', 'npy'))
         nload = sum(1 for s in case['steps'] if s[0] == 'load')
         ctx.note_case(canon_history(case), nontrivial=bool(nt),
                       sample=dict(kind='history', path=case['path'], nd=case['nd'], chunks=case['chunks'], steps=case['steps'][:8]))
@@ -1234,9 +1318,11 @@ def run(ctx):
         tie_apply_data_lost(ctx)
         tie_chunk_info(ctx)
         tie_getters(ctx)
+        tie_view_store_get(ctx)
     rng = ctx.rng
-    hist = [gen_history(rng) for _ in range(ctx.scale(100, 2500))]
+    hist = [gen_history(rng) for _ in range(ctx.scale(100, 1500))]
     run_histories(ctx, hist)
+    run_histories(ctx, [gen_view_history(rng) for _ in range(ctx.scale(40, 500))], tag='c06v')
     tie_options(ctx)
     cases = [gen_case(rng) for _ in range(ctx.scale(380, 6000))]
     cases += [gen_case(rng, small=True) for _ in range(ctx.scale(120, 1500))]
@@ -1267,6 +1353,9 @@ def replay(ctx, doc):
         run_histories(ctx, [case], tag='c06rp')
     elif kind == 'options':
         tie_options(ctx, [case])
+    elif kind == 'view_get':
+        tie_view_store_get(ctx, [case])
+        ctx.note_case(('view_get', repr(case)))
     elif kind == 'prune_raw':
         tie_prune_raw(ctx, [case])
         ctx.note_case(('prune_raw', repr(case)))
